@@ -3,7 +3,7 @@ import CpModel.Finalize
 /-!
   Driver for C06 (response framing).  One case per line, space-separated fields:
 
-    <tools> <page> <ct> <hcl> <hstream> <st> <body> <req>;<req>;…
+    <tools> <page> <ct> <hcl> <hstream> <st> <body> <req>;<req>;…      hcl = N | <n> (handler's own Content-Length)
 
   tools   letters of e(ncode) g(zip) t(etags) c(aching) x(expires) f(latten) s(tream), or `-`
   page    `pt` (default template) | `pc:<hex>` (error_page.default returns these bytes)
@@ -97,7 +97,7 @@ def parseMethod (s : String) : Option Method :=
 def parseAe (s : String) : Option AEnc :=
   if s == "-" then some .absent else if s == "gzip" then some .gzip
   else if s == "identity" then some .identity else if s == "gzipq0" then some .gzipq0
-  else if s == "other" then some .other else none
+  else if s == "other" then some .other else if s == "idq0" then some .idq0 else none
 
 def parseCond (s : String) : Option Cond :=
   if s == "-" then some .absent else if s == "star" then some .star
@@ -167,7 +167,7 @@ def step (line : String) : String :=
       let t ← parseTools tools
       let pg ← parsePage page
       let h : Handler := { shape := ← parseShape body, st := ← parseSt st, ct := ← parseCt ct,
-                           setCL := ← parseBool hcl, setStream := ← parseBool hstream }
+                           setCL := ← Proto.optNat? hcl, setStream := ← parseBool hstream }
       let rqs ← (reqs.splitOn ";").mapM parseReq
       let obs := serveAll (pages pg) ⟨h, t⟩ rqs none
       pure (" | ".intercalate (obs.map showObs))
